@@ -1118,4 +1118,11 @@ def _cookie_pairs(ctx):
             reach = pcf.reachable_blocks(start=body0, cut_blocks=[pcf.point_of(newc[0])[0]], cut_edges=list(g_fail) + list(g_dollar))
             okc = condb not in reach
     ctx.check(okc, R8, 'parse_cookies:every-completed-pair-is-stored', 'a name=value pair that was read is not turned into a cookie and stored (the last one included)', pcf.where)
-    ctx.floor(R8, 3)
+    # cookies are stored and handed out by value: a copy carries every attribute
+    PCK = model.Program(build.extract([REPO + '/src/http_cookie.cpp'], include_re='^/repo/(src|cppcms)/'))
+    ckf, ckc = q.copy_coverage(PCK, 'cppcms::http::cookie', skip=('d',))
+    ctx.require(len(ckf) >= 8 and len(ckc) >= 2 or ctx.violations, 'C01.R8: http::cookie fields / copy operations not found (%d, %d)' % (len(ckf), len(ckc)))
+    for g_, missing in sorted(ckc.items(), key=lambda kv: kv[0].id):
+        ctx.check(not missing, R8, 'http::cookie::%s:copies-every-attribute' % ('copy-constructor' if g_.kind == 'ctor' else 'operator='),
+                  'a copied cookie does not take %s from the source (the request keeps cookies in a map, by value)' % [x.rsplit('::', 1)[-1] for x in missing], g_.where)
+    ctx.floor(R8, 5)
